@@ -30,7 +30,10 @@ RULE = ("case = seeded UFO (Latin bases/alternates/ligatures/marks with top/bott
         "ligature substitutions, hand-written kern/mark/mkmk/curs blocks with the marker "
         "none/top/middle/bottom/alone/mis-cased/twice, optional table GDEF) x writer list "
         "(default | lib-specified | explicit with/without ellipsis; skip/append; harness GSUB "
-        "writer last) x UFO library; distinct = sha1 of the case description; non-trivial = the "
+        "writer last) x UFO library; strata: default ~94 %, plus 2 % each for the listed "
+        "mechanisms (user lookup named like a generated lookup; useExtension on a block that the "
+        "marker splits; UseMarkFilteringSet in a user GSUB lookup behind a marker'd mkmk block); "
+        "distinct = sha1 of the case description; non-trivial = the "
         "font compiled with the writers and at least one hand-written block of a tag owned by a "
         "listed writer was judged or a non-empty GSUB was compared")
 ASSUMPTIONS = [
@@ -44,6 +47,11 @@ ASSUMPTIONS = [
     "holds by construction of the UFO for kern, mark, mkmk and curs",
     "append mode: the generated block follows the user's blocks of that tag (brief of C17)",
     "a feature file the compiler rejects WITHOUT any writer is outside the quantifier",
+    "GSUB identity is judged on the raw table bytes after save -> reload; when the harness GSUB "
+    "writer is in the list the reference is the compile with that writer alone",
+    "the `useExtension` keyword of a block counts as part of the statements inside it (a "
+    "statement that survives inside a block that lost the keyword is reported separately as "
+    "block_useExtension_lost)",
     "<= 40 glyphs, <= 12 kerning pairs, <= 12 top-level blocks in the user's file",
 ]
 NONVACUITY = ["cases_judged", "user_statements_matched", "gsub_compared_nonempty",
